@@ -22,7 +22,7 @@ PROP = "C20"
 RUN_TIMEOUT = 180
 RAND_SEEDS = [11, 22]
 TIERS = {
-    "quick": {"runs": 1600, "budget_s": 85, "selftest_seeds": 8},
+    "quick": {"runs": 1100, "budget_s": 85, "selftest_seeds": 8},
     "thorough": {"runs": 60000, "budget_s": 800, "selftest_seeds": 48, "selftest_cross": True, "cold_check": True},
 }
 RULE = ("one run = seeded history of 4-12 op templates (public pyrepseq calls with literal arguments taken from a shared "
@@ -83,6 +83,17 @@ class Heap:
         for dep in cat.DEPENDS.get(name, ()):  # caller-owned containers held inside a library object
             self[dep]
         return obj
+
+    def library_state(self):
+        """Deep state of the library objects (database / metric instances) touched by the current op: diagnostics only."""
+        from .canon import snap_deep
+
+        out = {}
+        for name in self.touched:
+            obj = self.objs[name]
+            if type(obj).__module__.startswith("pyrepseq"):
+                out[name] = digest(snap_deep(obj))
+        return out
 
     def mutated(self):
         from .canon import close, snap
@@ -339,7 +350,14 @@ def execute(trace, ctx=None):
     retained = []
     fns0, globs0 = state_snapshot()
 
-    for step, op in enumerate(trace["ops"]):
+    ops_list = [dict(o) for o in trace["ops"]]
+    dynamic = trace.get("dynamic", True)
+    triggers = 0
+    lib_state = {}
+    step = -1
+    while step + 1 < len(ops_list) and len(ops_list) <= 40:
+        step += 1
+        op = ops_list[step]
         name = op["op"]
         spec = ops.get(name)
         if spec is None:
@@ -445,9 +463,30 @@ def execute(trace, ctx=None):
         for k2 in globs1:
             if globs0.get(k2) != globs1[k2]:
                 diag_globals.add(k2)
+        changed = [("default", k2) for k2 in fns1 if fns0.get(k2) != fns1[k2]] + \
+                  [("global", k2) for k2 in globs1 if globs0.get(k2) != globs1[k2]]
+        for hname, dg in heap.library_state().items():
+            if hname in lib_state and lib_state[hname] != dg:
+                changed.append(("heapobj", hname))
+                diag_globals.add("heap." + hname)
+            lib_state[hname] = dg
         fns0, globs0 = fns1, globs1
         if violation:
             break
+        # directed search (DESIGN 3.4, oracle 3): a state change is no violation, but it says where to look next
+        # the kdtree parameter block is rewritten by every kdtree call (the expected benign case): follow it up one time in three
+        if changed and all(n == "pyrepseq.nn._cal_params" for _, n in changed):
+            import zlib
+
+            if zlib.crc32(("%s/%d" % (key, step)).encode()) % 3:
+                changed = []
+        if dynamic and changed and triggers < 2 and not op.get("probe"):
+            probes = pick_probes(op, spec, changed, table, ops)
+            if probes:
+                ops_list[step + 1:step + 1] = probes
+                triggers += 1
+                stats["directed_probe_triggers"] += 1
+                stats["directed_probes_inserted"] += len(probes)
 
     stats["defaults_changed_events"] = len(diag_defaults)
     summ = CTL.summary()
@@ -462,8 +501,57 @@ def execute(trace, ctx=None):
                  "globals_changed": sorted(diag_globals), "templates_executed": done},
         "sig": digest(shape),
         "nontrivial": len(done) >= 2,
+        "executed_ops": ops_list[:step + 1] if violation else ops_list,
         "sched_decisions": CTL.decisions[:200],
     }
+
+
+def pick_probes(op, spec, changed, table, ops):
+    """Deterministic choice of follow-up templates after ``op`` changed some state: the same template again (other seed
+    if randomised), templates that use the same library object, the numerical-edge templates when a dependency's
+    process-wide setting changed, and siblings of the same group."""
+    import zlib
+
+    def rot(names, k, salt):
+        names = sorted(names)
+        if not names:
+            return []
+        off = zlib.crc32((op_key(op) + salt).encode()) % len(names)
+        return (names[off:] + names[:off])[:k]
+
+    want = []
+    seed = op.get("rng_seed")
+    if spec.rand:
+        want.append({"op": op["op"], "rng_seed": RAND_SEEDS[1] if seed == RAND_SEEDS[0] else RAND_SEEDS[0]})
+    want.append({"op": op["op"], "rng_seed": seed} if spec.rand else {"op": op["op"]})
+    kinds = set(k for k, _ in changed)
+    names_changed = [n for _, n in changed]
+    if any(n.startswith("env.") for n in names_changed):
+        want += [{"op": n} for n in rot([n for n, o in ops.items() if o.group == "edge"], 8, "env")]
+    for k, hname in changed:
+        if k == "heapobj":
+            users = [key.split("#")[0] for key, v in table.items() if hname in v.get("heap", ())]
+            want += [{"op": n} for n in rot(set(users), 5, hname)]
+    if kinds & {"global", "default", "heapobj"}:
+        sib = [n for n, o in ops.items() if o.group == spec.group and (not o.slow or spec.slow)]
+        few = spec.slow or all(n == "pyrepseq.nn._cal_params" for n in names_changed)
+        want += [{"op": n} for n in rot(sib, 2 if few else 5, "sib")]
+    out, seen = [], set()
+    for w in want:
+        o = ops.get(w["op"])
+        if o is None:
+            continue
+        if o.rand and w.get("rng_seed") is None:
+            w["rng_seed"] = RAND_SEEDS[len(out) % 2]
+        if not o.rand:
+            w.pop("rng_seed", None)
+        k = op_key(w)
+        if k in seen and k != op_key(op):
+            continue
+        seen.add(k)
+        w["probe"] = True
+        out.append(w)
+    return out[:12]
 
 
 def _retainable(v, depth=0):
@@ -503,8 +591,9 @@ def pristine_outcome(name, rng_seed):
     # second execution (no longer pristine; used only to measure the op's length for fault placement)
     lines = set()
     counter = LineInterrupt(None, record=lines)
-    run_op(spec, Heap(), rng_seed, cb=spec.cb, fault_ctx=counter)
-    return {"outcome": out, "N": counter.count, "lines": sorted(lines)}
+    h2 = Heap()
+    run_op(spec, h2, rng_seed, cb=spec.cb, fault_ctx=counter)
+    return {"outcome": out, "N": counter.count, "lines": sorted(lines), "heap": sorted(h2.touched)}
 
 
 def all_keys():
